@@ -129,15 +129,89 @@ func (r *WordRenderer) renderHeading(node *ast.Heading) (ast.WalkStatus, error) 
 	}
 
 	// 使用现有的API，确保兼容性
+	var para *document.Paragraph
 	if r.opts.GenerateTOC && level <= r.opts.TOCMaxLevel {
 		// 复用现有的AddHeadingWithBookmark方法
-		r.doc.AddHeadingWithBookmark(text, level, "")
+		para = r.doc.AddHeadingWithBookmark(text, level, "")
 	} else {
 		// 复用现有的AddHeadingParagraph方法
-		r.doc.AddHeadingParagraph(text, level)
+		para = r.doc.AddHeadingParagraph(text, level)
 	}
+	r.applyHeadingInlineFormat(node, para)
 
 	return ast.WalkSkipChildren, nil
+}
+
+// applyHeadingInlineFormat 让标题里的强调、删除线、行内代码等保留各自的格式：
+// 标题段落原本只有一个带标题字符格式的Run，这里按行内节点把它拆成多个Run，
+// 每个Run在标题字符格式之上叠加自己的格式。没有行内格式的标题保持原样。
+func (r *WordRenderer) applyHeadingInlineFormat(node *ast.Heading, para *document.Paragraph) {
+	if para == nil || len(para.Runs) == 0 {
+		return
+	}
+	plain := true
+	for child := node.FirstChild(); child != nil; child = child.NextSibling() {
+		if _, ok := child.(*ast.Text); !ok {
+			plain = false
+		}
+	}
+	if plain {
+		return
+	}
+	inline := &document.Paragraph{}
+	r.renderInlineContent(node, inline)
+	if len(inline.Runs) == 0 {
+		return
+	}
+	last := len(para.Runs) - 1
+	base := para.Runs[last].Properties
+	runs := append([]document.Run{}, para.Runs[:last]...)
+	for _, run := range inline.Runs {
+		props := &document.RunProperties{}
+		if base != nil {
+			// 粗体/斜体由标题样式本身给出，这里只按行内标记设置，
+			// 否则 "#### *a* `b`" 里没有强调的部分也会被写成斜体
+			if base.FontSize != nil {
+				props.FontSize = &document.FontSize{Val: base.FontSize.Val}
+			}
+			if base.Color != nil {
+				props.Color = &document.Color{Val: base.Color.Val}
+			}
+			if base.FontFamily != nil {
+				family := *base.FontFamily
+				props.FontFamily = &family
+			}
+		}
+		if own := run.Properties; own != nil {
+			if own.Bold != nil {
+				props.Bold = own.Bold
+			}
+			if own.Italic != nil {
+				props.Italic = own.Italic
+			}
+			if own.Strike != nil {
+				props.Strike = own.Strike
+			}
+			if own.Underline != nil {
+				props.Underline = own.Underline
+			}
+			if own.FontFamily != nil {
+				props.FontFamily = own.FontFamily
+			}
+			if own.Color != nil {
+				props.Color = own.Color
+			}
+			if own.FontSize != nil {
+				props.FontSize = own.FontSize
+			}
+			if own.Highlight != nil {
+				props.Highlight = own.Highlight
+			}
+		}
+		run.Properties = props
+		runs = append(runs, run)
+	}
+	para.Runs = runs
 }
 
 // renderParagraph 渲染段落
@@ -492,6 +566,7 @@ func (r *WordRenderer) cleanText(text string) string {
 func (r *WordRenderer) renderTable(node *extast.Table) (ast.WalkStatus, error) {
 	// 收集表格数据
 	var tableData [][]string
+	var cellNodes [][]*extast.TableCell // 与 tableData 对应的单元格节点
 	// 对齐方式来自分隔行（表格节点本身），只有表头没有数据行的表格也要保留对齐
 	alignments := node.Alignments
 	var emphases [][]int
@@ -512,6 +587,7 @@ func (r *WordRenderer) renderTable(node *extast.Table) (ast.WalkStatus, error) {
 			}
 			tableData = append(tableData, rowData)
 			emphases = append(emphases, rowEmphasis)
+			cellNodes = append(cellNodes, tableCellsOf(row))
 		}
 	}
 
@@ -536,6 +612,7 @@ func (r *WordRenderer) renderTable(node *extast.Table) (ast.WalkStatus, error) {
 			}
 			tableData = append(tableData, rowData)
 			emphases = append(emphases, rowEmphasis)
+			cellNodes = append(cellNodes, tableCellsOf(row))
 		}
 	}
 
@@ -576,6 +653,26 @@ func (r *WordRenderer) renderTable(node *extast.Table) (ast.WalkStatus, error) {
 			}
 		}
 
+		// 单元格里只有一部分文字带格式（"a **b**"、行内代码、删除线）时，按行内节点逐段写入，
+		// 整格统一的粗体/斜体仍由 Emphases 处理
+		for rowIdx, nodes := range cellNodes {
+			for colIdx, cellNode := range nodes {
+				if !cellHasMixedInlineFormat(cellNode) {
+					continue
+				}
+				cell, err := table.GetCell(rowIdx, colIdx)
+				if err != nil || len(cell.Paragraphs) == 0 {
+					continue
+				}
+				var base *document.TextFormat
+				if rowIdx == 0 && len(tableData) > 0 && len(emphases[0]) > colIdx && emphases[0][colIdx] == 2 {
+					base = &document.TextFormat{Bold: true} // 表头默认粗体
+				}
+				cell.Paragraphs[0].Runs = nil
+				r.renderInlineContentWithFormat(cellNode, &cell.Paragraphs[0], base)
+			}
+		}
+
 		// 根据对齐方式设置单元格对齐
 		for rowIdx, row := range tableData {
 			for colIdx := range row {
@@ -605,6 +702,42 @@ func (r *WordRenderer) renderTable(node *extast.Table) (ast.WalkStatus, error) {
 	}
 
 	return ast.WalkSkipChildren, nil
+}
+
+// tableCellsOf 返回表格行（表头或数据行）里的单元格节点
+func tableCellsOf(row ast.Node) []*extast.TableCell {
+	var cells []*extast.TableCell
+	for child := row.FirstChild(); child != nil; child = child.NextSibling() {
+		if cell, ok := child.(*extast.TableCell); ok {
+			cells = append(cells, cell)
+		}
+	}
+	return cells
+}
+
+// cellHasMixedInlineFormat 判断单元格是否只有一部分内容带行内格式：
+// 直接子节点里既有普通文字又有格式节点，或者有强调以外的格式节点（行内代码、删除线、链接）
+func cellHasMixedInlineFormat(cell *extast.TableCell) bool {
+	texts, emphases, others := 0, 0, 0
+	for child := cell.FirstChild(); child != nil; child = child.NextSibling() {
+		switch n := child.(type) {
+		case *ast.Text:
+			if n.Segment.Len() > 0 {
+				texts++
+			}
+		case *ast.Emphasis:
+			emphases++
+			// 强调里面还套着别的格式
+			for inner := n.FirstChild(); inner != nil; inner = inner.NextSibling() {
+				if _, ok := inner.(*ast.Text); !ok {
+					others++
+				}
+			}
+		default:
+			others++
+		}
+	}
+	return others > 0 || (emphases > 0 && texts > 0) || emphases > 1
 }
 
 // 处理单元格样式
